@@ -289,8 +289,41 @@ def _tolist(node):
 OPTION_OR_INDEXED = (IX, IO, BM, BT, UM)
 
 
+def _children(node):
+    return ([node.content] if hasattr(node, "content") else []) + list(getattr(node, "contents", []))
+
+
+def params_valid(node, parent=None):
+    """the documented rules on the __array__ parameter: "string"/"bytestring" only on a list node (ListArray,
+    ListOffsetArray, RegularArray) whose content is directly a one-dimensional uint8 NumpyArray with "char"/"byte";
+    "char"/"byte" only there; "categorical" only on an IndexedArray / IndexedOptionArray"""
+    a = (node.params or {}).get("__array__")
+    pa = (parent.params or {}).get("__array__") if parent is not None else None
+    if a in ('"string"', '"bytestring"'):
+        if not isinstance(node, (LO, LA, RG)):
+            return False
+        c = node.content
+        want = '"char"' if a == '"string"' else '"byte"'
+        if (c.params or {}).get("__array__") != want:
+            return False
+        if not (isinstance(c, NP) and c.dtype == "uint8" and len(c.shape) == 1):
+            return False
+        return True       # (the character node has been checked)
+    if a == '"char"' and pa != '"string"':
+        return False
+    if a == '"byte"' and pa != '"bytestring"':
+        return False
+    if a == '"categorical"' and not isinstance(node, (IX, IO)):
+        return False
+    return all(params_valid(c, node) for c in _children(node))
+
+
 def valid(node):
     """True iff the layout obeys every documented structural rule (ak.layout.*.rst, ak.is_valid)"""
+    return params_valid(node) and _valid_struct(node)
+
+
+def _valid_struct(node):
     if isinstance(node, (NP, EM)):
         return True
     if isinstance(node, LO):
@@ -303,7 +336,7 @@ def valid(node):
                 return False
             if offs[i] != offs[i + 1] and (offs[i] < 0 or offs[i + 1] > n):
                 return False
-        return valid(node.content)
+        return _valid_struct(node.content)
     if isinstance(node, LA):
         n = node.content.length()
         if len(node.stops) < len(node.starts):
@@ -313,11 +346,11 @@ def valid(node):
                 return False
             if a != b and (a < 0 or b > n):
                 return False
-        return valid(node.content)
+        return _valid_struct(node.content)
     if isinstance(node, RG):
         if node.size < 0 or node.zeros_length < 0:
             return False
-        return valid(node.content)
+        return _valid_struct(node.content)
     if isinstance(node, (IX, IO)):
         n = node.content.length()
         for i in node.index:
@@ -327,23 +360,23 @@ def valid(node):
                 return False
         if isinstance(node.content, OPTION_OR_INDEXED):
             return False
-        return valid(node.content)
+        return _valid_struct(node.content)
     if isinstance(node, BM):
         if node.content.length() < len(node.mask):
             return False
         if isinstance(node.content, OPTION_OR_INDEXED):
             return False
-        return valid(node.content)
+        return _valid_struct(node.content)
     if isinstance(node, BT):
         if node.content.length() < node.len or len(node.mask) * 8 < node.len:
             return False
         if isinstance(node.content, OPTION_OR_INDEXED):
             return False
-        return valid(node.content)
+        return _valid_struct(node.content)
     if isinstance(node, UM):
         if isinstance(node.content, OPTION_OR_INDEXED):
             return False
-        return valid(node.content)
+        return _valid_struct(node.content)
     if isinstance(node, UN):
         if len(node.index) < len(node.tags):
             return False
@@ -355,12 +388,12 @@ def valid(node):
         for c in node.contents:
             if isinstance(c, UN):
                 return False
-        return all(valid(c) for c in node.contents)
+        return all(_valid_struct(c) for c in node.contents)
     if isinstance(node, RC):
         for c in node.contents:
             if c.length() < node.len:
                 return False
-        return all(valid(c) for c in node.contents)
+        return all(_valid_struct(c) for c in node.contents)
     raise TypeError(node)
 
 
@@ -444,8 +477,23 @@ def toplen(rng, lo, hi):
     return n
 
 
-def gen_value(rng, T, maxlen=3, none_p=0.3):
+NONE_P = 0.3         # probability of a missing value at an option node (engine.generate sets it to 0 for a fifth of the cases:
+                     # option-type layouts in which nothing is actually missing)
+
+
+FIRST_EMPTY = False  # one-shot: the next list value generated is empty (a family sets it so that the first list of an
+                     # array is empty: a range slice past it keeps a first visible offset of 0 at a non-zero view offset)
+
+
+def gen_value(rng, T, maxlen=3, none_p=None):
+    global FIRST_EMPTY
+    if none_p is None:
+        none_p = NONE_P
     k = T[0]
+    if FIRST_EMPTY:
+        FIRST_EMPTY = False
+        if k == "list":
+            return []
     if k == "num":
         return gen_leaf(rng, T[1])
     if k == "string":
